@@ -221,6 +221,18 @@ def directed(rng):
             specs.append(node(preds=[1], prio=0, res="t"))
         out.append(dict(n=len(specs), specs=specs, maxc=rng.choice([2, 3]), is_async=rng.random() < 0.3, sel=None, nested=False,
                         after_failed_call=dict(fail0=0), script=dict(seed=rng.randrange(1 << 30))))
+    for _ in range(6):
+        # SEVERAL pooled nodes observed finished by ONE wake-up of the scheduler, one of them with a successor whose other
+        # predecessor is still running: the successor must stay where it is
+        kind = rng.choice(["t", "t", "a"])
+        i_, j_ = rng.choice([(0, 1), (0, 2), (1, 2)])
+        k_ = ({0, 1, 2} - {i_, j_}).pop()
+        specs = [node(prio=5, res=kind), node(prio=4, res=kind), node(prio=3, res=kind),
+                 node(preds=sorted([rng.choice([i_, j_]), k_]), prio=9, res=rng.choice([kind, "m"]))]
+        if rng.random() < 0.5:
+            specs.append(node(preds=[3], prio=0, res=kind))
+        out.append(dict(n=len(specs), specs=specs, maxc=rng.choice([3, 4]), is_async=rng.random() < 0.3, sel=None, nested=False,
+                        script=dict(decisions=[{(0, 1): 3, (0, 2): 4, (1, 2): 5}[(i_, j_)]])))
     for _ in range(4):
         # a tag carried by a non-sequential node and (later in the description) a sequential one, reconfigured through the tag
         # by an entry that states the priority only: both keep their own sequential flag
@@ -516,6 +528,30 @@ def run_scenario(sc, timeout=40):
         _cfg.RUN_DEBUG_NODES = old_debug
 
 
+class CreationHung(BaseException):
+    """building an executor object did not return (a spinning graph preparation cannot be killed: a thread stays behind)"""
+
+
+def make_executor(d, **kw):
+    """d.executor(**kw) under a watchdog: building an executor must return or raise."""
+    import threading as _th
+    box = {}
+
+    def _mk():
+        try:
+            box["ex"] = d.executor(**kw)
+        except BaseException as e_:  # noqa: BLE001
+            box["exc"] = e_
+    th_ = _th.Thread(target=_mk, daemon=True)
+    th_.start()
+    th_.join(10)
+    if th_.is_alive():
+        raise CreationHung()
+    if "exc" in box:
+        raise box["exc"]
+    return box["ex"]
+
+
 def arun(sc, mk):
     """Await mk() in a fresh event loop — the application's loop, whose DEFAULT executor may be tiny (one worker): the DAG's
     nodes run in the DAG's own pool, whatever the application does with its loop."""
@@ -542,7 +578,9 @@ def _run_scenario(sc, timeout):
         if sc["reconf"].get("exec_before"):
             sel0 = sc.get("sel") or {}
             try:
-                early_ex = d.executor(root_nodes=ids(sel0.get("R")), exclude_nodes=ids(sel0.get("X")), target_nodes=ids(sel0.get("T")))
+                early_ex = make_executor(d, root_nodes=ids(sel0.get("R")), exclude_nodes=ids(sel0.get("X")), target_nodes=ids(sel0.get("T")))
+            except CreationHung:
+                return dict(skipped="executor-creation-hung", creation_hung=True)
             except BaseException as e:  # noqa: BLE001
                 return dict(skipped="executor-creation-raised:" + type(e).__name__)
         try:
@@ -579,7 +617,9 @@ def _run_scenario(sc, timeout):
             return arun(sc, d) if sc["is_async"] else d()
     else:
         try:
-            ex = d.executor(root_nodes=ids(sel.get("R")), exclude_nodes=ids(sel.get("X")), target_nodes=ids(sel.get("T")))
+            ex = make_executor(d, root_nodes=ids(sel.get("R")), exclude_nodes=ids(sel.get("X")), target_nodes=ids(sel.get("T")))
+        except CreationHung:
+            return dict(skipped="executor-creation-hung", creation_hung=True)
         except BaseException as e:  # noqa: BLE001  the selection itself is C12's business (slice G)
             return dict(skipped="executor-creation-raised:" + type(e).__name__)
         graph_nodes = {int(norm_id(x)[1:]) for x in ex.graph.nodes if norm_id(x).startswith("n") and norm_id(x)[1:].isdigit()}
